@@ -188,6 +188,9 @@ func funcRange(v []data.Value) data.Value {
 	for index := init; index < limit; index += increment {
 		indices = append(indices, data.Int(index))
 		i++
+		if index > math.MaxInt-increment {
+			break // the next step would wrap around to a negative index
+		}
 	}
 	return indices
 }
